@@ -32,7 +32,9 @@ THEOREMS = [
 ASSUMPTIONS = [
     'CPython re engine: the line classifier and token scanners of the model re-implement each anchored pattern by hand '
     '(Gen/Regex pins the pattern sources; correspondence streams tie the behaviour)',
-    'chunks passed to parse_script are lines or groups of lines WITHOUT their trailing newline',
+    'an iterable input is read as the one string "\\n".join(chunks): a chunk may hold several lines, and a chunk that ends in a newline '
+    'contributes one more (blank) physical line - callers pass lines WITHOUT their trailing newline (file lines with it would count double); '
+    'the forms stream exercises both and a lone \\r is never generated',
     'non-ASCII letters/digits outside string literals and exponents above 200000 are outside the Lean model (ASCII \\w/\\d, exact '
     'rational literals): such texts are judged by the oracles on the implementation only',
 ]
@@ -44,7 +46,10 @@ LEVEL_TEXT = ('Theorems about the Lean model of parse_script (line splitter + co
               'error, line number moved by their count; start_line_number + d moves every reported number by d; '
               'the caret of the formatted message sits under the same character for every line length/column (elision arithmetic). '
               'The model is tied to parser.py by differential correspondence on token soup, mutated programs and long lines, and '
-              'metamorphic oracles (prepend shifts line number, marker lines survive) run on the implementation.')
+              'metamorphic oracles (prepend shifts line number, marker lines survive) run on the implementation; the `forms` stream hands the '
+              'same texts over in every input form (string, str subclass, list/tuple/deque/dict keys, generator, iterator, map, bare __iter__, '
+              'multi-line chunks) one call after the other in one process: same outcome as the one string, caller object untouched, same '
+              'call again same outcome - a failure is reported with the shortest call history that shows it in a NEW process.')
 LEVEL_NOTE = ('Trusted: Lean kernel; extract.py; correspondence harness. Modelled not verified: CPython re. Python recursion limit '
               '(nesting > ~300 in one expression raises RecursionError) is outside the model; generators keep nesting <= 50. '
               'Token SIZES are not bounded: the scale families run every token class (digits of a literal, identifiers, strings, blanks, '
@@ -491,6 +496,50 @@ def line_without_effect(parser, text, model, only=None):
     return None
 
 
+def open_depth(ll):
+    """Blocks opened minus blocks closed over the logical lines, read off the keywords alone."""
+    depth = 0
+    for _, line in ll:
+        s = line.strip()
+        # `while :` / `for :` / `function :` are LABELS named like the keyword (a block header needs an expression
+        # resp. a name and parentheses)
+        if re.match(r'^(if\s+\S.*:|while\s+\S.*:|for\s+\S.*:|(async\s*)?function\s+[A-Za-z_]\w*\s*\(.*\)\s*:)$', s) and \
+                not re.match(r'^\w+\s*=', s):
+            depth += 1
+        elif s in CLOSERS:
+            depth -= 1
+    return depth
+
+
+def prepend_check(ctx, parser, text, pre, what, res):
+    """Prepending harmless lines shifts the line number by their count and changes nothing else."""
+    k = len(pre)
+    what2, res2 = parse_outcome(parser, '\n'.join(pre + [text]))
+    if what == 'err' and res['lineNumber'] is None:
+        return True        # already reported by error-has-line-number
+    if what == 'err':
+        want = dict(res, lineNumber=res['lineNumber'] + k)
+        want.pop('message')
+        got = dict(res2) if what2 == 'err' else {'accepted': True}
+        got.pop('message', None)
+        if got != want:
+            ctx.witness('prepend-shifts-line-number', {'text': text, 'prefix': pre}, want, got)
+            return False
+    elif what2 != 'ok':
+        ctx.witness('prepend-keeps-acceptance', {'text': text, 'prefix': pre}, 'accepted', res2)
+        return False
+    return True
+
+
+def start_check(ctx, parser, text, start, res):
+    """start_line_number offsets the reported number and nothing else."""
+    what3, res3 = parse_outcome(parser, text, start)
+    if what3 != 'err' or res3['lineNumber'] != res['lineNumber'] + start - 1 or res3['column'] != res['column']:
+        ctx.witness('start-line-offsets', {'text': text, 'start': start}, res['lineNumber'] + start - 1, res3)
+        return False
+    return True
+
+
 def gen_texts(ctx):
     """(kind, text) cases: corpus, token soup, mutated valid programs, deleted closers, dangling continuation, lone backslash,
     long lines, deep nesting."""
@@ -571,6 +620,9 @@ def streams(ctx):
                              'right behind the big token; non-trivial = a parser error or '
                              'a model with >= 3 statements')
     cases = list(gen_texts(ctx))
+    # input forms and call histories first: a witness of that stream carries the calls made before it and was seen again in a
+    # NEW process (a failure that needs a history met below, in the middle of this process, could not be replayed)
+    forms_stream(ctx, parser, cases)
     # correspondence with the Lean parser model (when the driver is built)
     resps = None
     if ctx.driver is not None:
@@ -593,17 +645,7 @@ def streams(ctx):
             if ll is None:
                 ctx.witness('dangling-continuation-rejected', {'text': text}, 'parser error', 'accepted')
             else:
-                depth = 0
-                for _, line in ll:
-                    s = line.strip()
-                    # `while :` / `for :` / `function :` are LABELS named like the keyword (a block header needs an expression
-                    # resp. a name and parentheses)
-                    if re.match(r'^(if\s+\S.*:|while\s+\S.*:|for\s+\S.*:|(async\s*)?function\s+[A-Za-z_]\w*\s*\(.*\)\s*:)$', s) and \
-                            not re.match(r'^\w+\s*=', s):
-                        depth += 1
-                    elif s in CLOSERS:
-                        depth -= 1
-                if depth != 0:
+                if open_depth(ll) != 0:
                     ctx.witness('open-block-rejected', {'text': text}, 'parser error (unbalanced blocks)', 'accepted')
         # correspondence
         if resps is not None and ix in resps:
@@ -618,24 +660,10 @@ def streams(ctx):
         if ix % 3 == 0:
             k = rng.randint(1, 4)
             pre = [rng.choice(['', '# c', '   ', 'zz = 1', "systemLog('m')", '#'])for _ in range(k)]
-            what2, res2 = parse_outcome(parser, '\n'.join(pre + [text]))
-            if what == 'err' and res['lineNumber'] is None:
-                pass        # already reported by error-has-line-number
-            elif what == 'err':
-                want = dict(res, lineNumber=res['lineNumber'] + k)
-                want.pop('message')
-                got = dict(res2) if what2 == 'err' else {'accepted': True}
-                got.pop('message', None)
-                if got != want:
-                    ctx.witness('prepend-shifts-line-number', {'text': text, 'prefix': pre}, want, got)
-            elif what2 != 'ok':
-                ctx.witness('prepend-keeps-acceptance', {'text': text, 'prefix': pre}, 'accepted', res2)
+            prepend_check(ctx, parser, text, pre, what, res)
             # start_line_number offsets the reported number
             if what == 'err' and res['lineNumber'] is not None:
-                start = rng.randint(2, 50)
-                what3, res3 = parse_outcome(parser, text, start)
-                if what3 != 'err' or res3['lineNumber'] != res['lineNumber'] + start - 1 or res3['column'] != res['column']:
-                    ctx.witness('start-line-offsets', {'text': text, 'start': start}, res['lineNumber'] + start - 1, res3)
+                start_check(ctx, parser, text, rng.randint(2, 50), res)
         # metamorphic: every logical line of an accepted text has an effect - deleting it gives an error or a different model
         if what == 'ok' and ix % 2 == 0:
             bad = line_without_effect(parser, text, res)
@@ -652,13 +680,281 @@ def streams(ctx):
                 ctx.witness('no-line-dropped', {'text': '\n'.join(marked)}, 'marker statement present in the model', res4 if what4 != 'ok' else 'dropped')
 
 
+
+# ---------------------------------------------------------------------------------------------------------------------
+# input forms and call histories: parse_script takes the text as ONE string or as ANY iterable of strings (list of lines,
+# tuple, generator, one-shot iterator, a class with only __iter__, deque, chunks that hold several lines, empty chunks,
+# chunks with a trailing newline, the empty iterable), the start line positionally or by keyword - and it is called many
+# times in one process. Whatever the form and whatever was parsed before, the outcome is the one of the string
+# '\n'.join(chunks); the caller's object is left alone; the same call made again gives the same outcome.
+# ---------------------------------------------------------------------------------------------------------------------
+
+class StrSub(str):
+    """a str subclass (what a templating / i18n layer hands over)"""
+
+
+class OnlyIter:
+    """an iterable that is nothing but iterable (no len, no indexing), re-iterable"""
+
+    def __init__(self, items):
+        self._items = list(items)
+
+    def __iter__(self):
+        return iter(list(self._items))
+
+
+ONE_STRING_FORMS = ['str', 'str-subclass']
+ITERABLE_FORMS = ['list', 'tuple', 'generator', 'iterator', 'only-iter', 'deque', 'list-of-str-subclass', 'dict-keys', 'map']
+ONE_SHOT_FORMS = ['generator', 'iterator', 'map']
+
+
+def make_arg(form, chunks):
+    """The object handed to parse_script for a call of this form (chunks: list of strings; the one-string forms join them)."""
+    import collections
+    if form == 'str':
+        return '\n'.join(chunks)
+    if form == 'str-subclass':
+        return StrSub('\n'.join(chunks))
+    if form == 'list':
+        return list(chunks)
+    if form == 'tuple':
+        return tuple(chunks)
+    if form == 'generator':
+        return (c for c in list(chunks))
+    if form == 'iterator':
+        return iter(list(chunks))
+    if form == 'only-iter':
+        return OnlyIter(chunks)
+    if form == 'deque':
+        return collections.deque(chunks)
+    if form == 'list-of-str-subclass':
+        return [StrSub(c) for c in chunks]
+    if form == 'dict-keys':
+        return dict.fromkeys(chunks).keys() if len(set(chunks)) == len(chunks) else list(chunks)
+    if form == 'map':
+        return map(str, list(chunks))
+    raise ValueError(form)
+
+
+def call_outcome(parser, arg, start, kw):
+    """parse_outcome for any argument object; the start line is omitted (1), positional or given by keyword."""
+    try:
+        if kw:
+            model = parser.parse_script(arg, start_line_number=start)
+        elif start == 1:
+            model = parser.parse_script(arg)
+        else:
+            model = parser.parse_script(arg, start)
+        return ['ok', model]
+    except parser.BareScriptParserError as exc:
+        return ['err', {'error': exc.error, 'line': exc.line, 'column': exc.column_number, 'lineNumber': exc.line_number,
+                        'message': str(exc)}]
+    except RecursionError:
+        return ['host', 'RecursionError']
+    except Exception as exc:  # pylint: disable=broad-except
+        return ['host', type(exc).__name__ + ': ' + str(exc)[:120]]
+
+
+def brief(outcome):
+    what, res = outcome
+    if what == 'ok':
+        return {'accepted': True, 'statements': len(res['statements']), 'model': fw.shorten(res, 600)}
+    if what == 'err':
+        return {f: res[f] for f in ('error', 'line', 'column', 'lineNumber')}
+    return {'exception': res}
+
+
+def run_session(parser, calls):
+    """Make the calls IN ORDER in this process. call = {'form', 'chunks', 'start', 'kw', 'twice'}. For every call: the
+    reference outcome (the one string '\\n'.join(chunks), start given positionally) is taken before and after, the call
+    itself is made in its form (and, 'twice', once more with the SAME object).
+    -> [(call index, oracle, expected, actual)] - empty when every call behaved."""
+    bad = []
+    for cx, call in enumerate(calls):
+        chunks, start, form = call['chunks'], call.get('start', 1), call['form']
+        text = '\n'.join(chunks)
+        ref = call_outcome(parser, text, start, False)
+        arg = make_arg(form, chunks)
+        got = call_outcome(parser, arg, start, call.get('kw', False))
+        if got != ref:
+            bad.append((cx, 'input-form-same-outcome', brief(ref), brief(got)))
+        if form not in ONE_SHOT_FORMS:
+            if form in ('list', 'deque', 'list-of-str-subclass') and list(arg) != list(chunks):
+                bad.append((cx, 'input-object-left-alone', fw.shorten(list(chunks), 600), fw.shorten(list(arg), 600)))
+            elif call.get('twice'):
+                again = call_outcome(parser, arg, start, call.get('kw', False))
+                if again != ref:
+                    bad.append((cx, 'repeat-call-same-outcome', brief(ref), brief(again)))
+        ref2 = call_outcome(parser, text, start, False)
+        if ref2 != ref:
+            bad.append((cx, 'repeat-call-same-outcome', brief(ref), brief(ref2)))
+    return bad
+
+
+_FRESH_SESSION = r"""
+import importlib, json, sys
+sys.path.insert(0, sys.argv[1])
+import fw
+from props import C06
+json.dump(C06.run_session(importlib.import_module('bare_script.parser'), json.load(sys.stdin)), sys.stdout)
+"""
+
+
+def fresh_session(calls):
+    """run_session in a NEW interpreter (nothing parsed before) -> its result, None when the process failed."""
+    import subprocess
+    res = subprocess.run([sys.executable, '-c', _FRESH_SESSION, os.path.join(fw.VERIF, 'harness')], input=json.dumps(calls),
+                         capture_output=True, text=True, timeout=300, check=False)
+    if res.returncode != 0:
+        return None
+    return json.loads(res.stdout)
+
+
+def shortest_history(log, cx, oracle):
+    """The failure of call cx was seen after everything in log[:cx]. -> the shortest tail of that history (0, 1, 2, 4, ...
+    earlier calls) after which a NEW process shows the same failure on the same call; (None, False) if none does."""
+    sizes, h = [], 0
+    while h < cx:
+        sizes.append(h)
+        h = max(1, h * 2)
+    sizes.append(cx)
+    for h in sizes:
+        calls = log[cx - h:cx + 1]
+        if len(json.dumps(calls)) > 15000:          # a witness has to stay replayable (fw.shorten)
+            break
+        res = fresh_session(calls)
+        if res and any(b[0] == h and b[1] == oracle for b in res):
+            return calls, True
+    return log[max(0, cx - 8):cx + 1], False
+
+
+def regroup(rng, lines):
+    """The physical lines as chunks: one line per chunk / groups of lines joined by \\n or \\r\\n / a few big chunks."""
+    how = rng.choice(['lines', 'lines', 'groups', 'groups', 'halves'])
+    if how == 'lines' or len(lines) < 2:
+        return list(lines)
+    chunks, ix = [], 0
+    while ix < len(lines):
+        k = rng.randint(1, 3) if how == 'groups' else rng.randint(1, max(1, len(lines)))
+        chunks.append(rng.choice(['\n', '\n', '\r\n']).join(lines[ix:ix + k]))
+        ix += k
+    return chunks
+
+
+RAW_CHUNKS = ['', '', 'a = 1', 'b = a +', 'if a:', 'endif', 'while b:', 'endwhile', 'for v in vs:', 'endfor', 'function f(n):',
+              'endfunction', '    return n * 2', '# c', '   ', 'c = fn(a, \\', '  b)', '\\', 'x = 1\n', '\nx = 2', 'y = 1\r\n', '\r\nz = 1', '\n',
+              '\r\n', 'a = 1\n\nb = (', 'include <u>', "include 'v.bare'", 'lbl:', 'jump lbl', 'z = 1 )', 'elif b:', 'else:', 'break']
+
+
+def gen_calls(ctx, rng, cases):
+    """The call log of the forms stream: texts of the `texts` stream (every error source is among them) cut into chunks,
+    raw chunk soups (empty chunks, chunks with leading/trailing newlines, the empty iterable), small programs with a block
+    left open; each in a random form, start line 1 / positional / keyword, some made twice with the same object."""
+    pool = [text for _, text in cases if len(text) <= 600 and '\r' not in text.replace('\r\n', '')]
+    rng.shuffle(pool)
+    texts = pool[:ctx.scale(500, 5000)]
+    calls = []
+    for text in texts:
+        calls.append(regroup(rng, re.split(r'\r?\n', text)))
+    for _ in range(ctx.scale(150, 1500)):
+        calls.append([rng.choice(RAW_CHUNKS) for _ in range(rng.choice([0, 1, 1, 2, 3, 4, 6]))])
+    for _ in range(ctx.scale(100, 1000)):
+        gen = progen.Gen(rng, max_depth=rng.choice([2, 3]))
+        lines = progen.render(gen.program())
+        closers = [i for i, ln in enumerate(lines) if ln.strip() in CLOSERS]
+        if closers and rng.random() < 0.6:
+            del lines[rng.choice(closers)]
+        calls.append(regroup(rng, lines))
+    rng.shuffle(calls)
+    out = []
+    for chunks in calls:
+        form = rng.choice(ITERABLE_FORMS * 3 + ONE_STRING_FORMS)
+        start = rng.choice([1, 1, 1, 2, 10, rng.randint(1, 5000)])
+        out.append({'form': form, 'chunks': chunks, 'start': start, 'kw': rng.random() < 0.3, 'twice': rng.random() < 0.3})
+    return out
+
+
+def forms_stream(ctx, parser, cases):
+    rng = ctx.rng('forms')
+    st = ctx.stream('forms', 'the texts of the `texts` stream, raw chunk soups and programs with a block left open, handed to parse_script in every '
+                             'input form (one string, str subclass, list / tuple / deque / dict keys of lines, generator, one-shot iterator, '
+                             'map, an object with only __iter__, chunks holding several lines joined by \\n or \\r\\n, empty chunks, chunks with '
+                             'leading / trailing newlines, the empty iterable), start line omitted / positional / by keyword, one after the '
+                             'other in one process (each call has the whole log before it as history), some repeated with the same object; '
+                             'non-trivial = an iterable form with >= 2 chunks or a parser error')
+    log = gen_calls(ctx, rng, cases)
+    resps = None
+    if ctx.driver is not None:
+        to_model = [ix for ix, c in enumerate(log) if model_can('\n'.join(c['chunks']))]
+        resps = dict(zip(to_model, model_batch(ctx, [{'op': 'parse', 'chunks': log[ix]['chunks'], 'start': log[ix]['start']} for ix in to_model])))
+    reported = 0
+    for cx, call in enumerate(log):
+        text = '\n'.join(call['chunks'])
+        # the call, with everything before it in this process as its history
+        bad = run_session(parser, [call])
+        what, res = call_outcome(parser, make_arg(call['form'], call['chunks']), call['start'], call['kw'])
+        st.case(call, nontrivial=(what == 'err' or (call['form'] in ITERABLE_FORMS and len(call['chunks']) >= 2)),
+                tags=['form:' + call['form'], 'chunks:' + str(min(len(call['chunks']), 5)), what + (':' + res['error'] if what == 'err' else ''),
+                      'start:' + ('kw' if call['kw'] else 'default' if call['start'] == 1 else 'positional')] + (['twice'] if call['twice'] else []))
+        inp = {'text': text, 'start': call['start'], 'form': call['form']}
+        if what == 'host':
+            bad.append((0, 'only-parser-error-escapes', 'BareScriptParserError or a model', res))
+        elif what == 'err':
+            # the diagnostics of a call in this form, judged from the text alone (line number = start + index of the logical line, ...)
+            probe = fw.Ctx('C06', 'quick', 0)
+            if not check_error(probe, parser, text, res, call['start'], 'forms'):
+                w = probe.witnesses[0]
+                bad.append((0, 'form:' + w['oracle'], w['expected'], w['actual']))
+        elif logical_lines(text) is None:
+            bad.append((0, 'dangling-continuation-rejected', 'parser error', 'accepted'))
+        for _, oracle, expected, actual in bad[:1]:
+            reported += 1
+            if reported <= 3:
+                calls, fresh = shortest_history(log, cx, oracle) if oracle in SESSION_ORACLES else ([call], True)
+                ctx.witness(oracle, dict(inp, calls=calls), expected, actual, history=len(calls) - 1, reproduced_in_a_new_process=fresh)
+        # correspondence with the Lean model, which takes the chunks as they are
+        if resps is not None and cx in resps and what != 'host':
+            model = resps[cx]
+            if what == 'ok':
+                impl = {'ok': canon_impl(res)}
+                model = {'ok': canon_model(model.get('ok'))} if 'ok' in model else model
+            else:
+                impl = {'error': res['error'], 'line': res['line'], 'column': res['column'], 'lineNumber': res['lineNumber']}
+            ctx.compare('parse-forms', call, impl, model)
+    if reported > 3:
+        ctx.notes.append(f'forms: {reported} calls failed an oracle; the first 3 are reported as witnesses')
+
+
+SESSION_ORACLES = ('input-form-same-outcome', 'input-object-left-alone', 'repeat-call-same-outcome')
+
+
 def search(ctx):
     pass
+
+
+def replay_session(parser, witness):
+    """Witness of the forms stream: make its calls (history, then the failing call) in this - new - process."""
+    inp = witness['input']
+    oracle = witness['oracle']
+    bad = run_session(parser, inp['calls'])
+    last = len(inp['calls']) - 1
+    if oracle in SESSION_ORACLES:
+        return any(b[0] == last and b[1] == oracle for b in bad)
+    call = inp['calls'][-1]
+    what, res = call_outcome(parser, make_arg(call['form'], call['chunks']), call.get('start', 1), call.get('kw', False))
+    if what == 'host':
+        return True
+    if what == 'ok':
+        return logical_lines(inp['text']) is None
+    probe = fw.Ctx('C06', 'quick', 0)
+    return not check_error(probe, parser, inp['text'], res, call.get('start', 1), 'replay')
 
 
 def replay(witness):
     parser = fw.impl()['parser']
     inp = witness['input']
+    if 'calls' in inp:
+        return replay_session(parser, witness)
     what, res = parse_outcome(parser, inp['text'], inp.get('start', 1))
     probe = fw.Ctx('C06', 'quick', 0)
     if what == 'host':
@@ -671,10 +967,17 @@ def replay(witness):
         return any(w.get('oracle') == witness['oracle'] for w in probe.witnesses)
     if witness['oracle'] == 'every-line-has-an-effect':
         return what == 'ok' and line_without_effect(parser, inp['text'], res, only=inp.get('line')) is not None
+    if witness['oracle'] in ('prepend-shifts-line-number', 'prepend-keeps-acceptance'):
+        return not prepend_check(probe, parser, inp['text'], list(inp['prefix']), what, res)
+    if witness['oracle'] == 'start-line-offsets':
+        what1, res1 = parse_outcome(parser, inp['text'])
+        return what1 == 'err' and res1['lineNumber'] is not None and not start_check(probe, parser, inp['text'], inp['start'], res1)
+    if witness['oracle'] == 'no-line-dropped':
+        return what != 'ok' or '@@marker@@' not in repr(res)
     if what == 'err':
         check_error(probe, parser, inp['text'], res, inp.get('start', 1), 'replay')
     else:
         ll = logical_lines(inp['text'])
-        if ll is None:
+        if ll is None or open_depth(ll) != 0:
             return True
-    return bool(probe.witnesses) or witness['oracle'] in ('prepend-shifts-line-number', 'no-line-dropped', 'open-block-rejected')
+    return bool(probe.witnesses)
